@@ -405,16 +405,12 @@ theorem pieces_no_panic {psLen : Int} {psize : UInt32} {length : Int} (hps : psL
     · omega
     · simp at h
 
-/-- everything `metadataComplete … = ok g` says about `g` and `bi` -/
-theorem mc_ok_inv {psLen : Int} {bi : BInfo} {g : Geom} (h : metadataComplete psLen bi = .ok g) :
-    ∃ multi files length chunks name n,
-      bi.pieces.length % 20 = 0 ∧ bi.pieceLength.toNat ≠ 0 ∧ bi.pieceLength.toNat % 16384 = 0 ∧
-      lengthAndFiles bi = .ok (multi, files, length) ∧ pathChecks files = .ok () ∧
-      sizeChecks bi length = .ok chunks ∧ pickName bi = .ok name ∧
-      piecesMetadataComplete psLen bi.pieceLength length = .ok n ∧
-      g = { name := name, pieceLength := bi.pieceLength.toNat, length := length, multi := multi,
-            files := files, nInFlight := chunks, nPieces := n, nHashes := bi.pieces.length / 20 } := by
-  unfold metadataComplete at h
+/-- what passing every check means -/
+theorem checks_ok {bi : BInfo} {c : Checked} (h : checks bi = .ok c) :
+    bi.pieces.length % 20 = 0 ∧ bi.pieceLength.toNat ≠ 0 ∧ bi.pieceLength.toNat % 16384 = 0 ∧
+    lengthAndFiles bi = .ok (c.multi, c.files, c.length) ∧ pathChecks c.files = .ok () ∧
+    sizeChecks bi c.length = .ok c.chunks ∧ pickName bi = .ok c.name := by
+  unfold checks at h
   split at h
   · simp at h
   · rename_i h20
@@ -425,9 +421,25 @@ theorem mc_ok_inv {psLen : Int} {bi : BInfo} {g : Geom} (h : metadataComplete ps
       obtain ⟨⟨⟩, hpc, h⟩ := bind_ok h
       obtain ⟨chunks, hsz, h⟩ := bind_ok h
       obtain ⟨name, hnm, h⟩ := bind_ok h
-      obtain ⟨n, hp, h⟩ := bind_ok h
       simp only [Res.ok.injEq] at h
-      exact ⟨multi, files, length, chunks, name, n, by omega, by omega, by omega, hlf, hpc, hsz, hnm, hp, h.symm⟩
+      subst h
+      exact ⟨by omega, by omega, by omega, hlf, hpc, hsz, hnm⟩
+
+/-- everything `metadataComplete … = ok g` says about `g` and `bi` -/
+theorem mc_ok_inv {psLen : Int} {bi : BInfo} {g : Geom} (h : metadataComplete psLen bi = .ok g) :
+    ∃ multi files length chunks name n,
+      bi.pieces.length % 20 = 0 ∧ bi.pieceLength.toNat ≠ 0 ∧ bi.pieceLength.toNat % 16384 = 0 ∧
+      lengthAndFiles bi = .ok (multi, files, length) ∧ pathChecks files = .ok () ∧
+      sizeChecks bi length = .ok chunks ∧ pickName bi = .ok name ∧
+      piecesMetadataComplete psLen bi.pieceLength length = .ok n ∧
+      g = { name := name, pieceLength := bi.pieceLength.toNat, length := length, multi := multi,
+            files := files, nInFlight := chunks, nPieces := n, nHashes := bi.pieces.length / 20 } := by
+  unfold metadataComplete at h
+  obtain ⟨c, hc, h⟩ := bind_ok h
+  obtain ⟨n, hp, h⟩ := bind_ok h
+  simp only [Res.ok.injEq] at h
+  obtain ⟨h1, h2, h3, h4, h5, h6, h7⟩ := checks_ok hc
+  exact ⟨c.multi, c.files, c.length, c.chunks, c.name, n, h1, h2, h3, h4, h5, h6, h7, hp, h.symm⟩
 
 theorem pickName_ok {bi : BInfo} {name : Bytes} (h : pickName bi = .ok name) :
     name = (if bi.name8 ≠ [] then bi.name8 else bi.name) ∧ name ≠ [] ∧ validComponent name = true := by
@@ -448,29 +460,94 @@ theorem pickName_no_panic (bi : BInfo) (w : String) : pickName bi ≠ .panic w :
 
 /-! ### the property theorems -/
 
-/-- MetadataComplete never panics, for EVERY BInfo (on a Pieces that has no metadata yet) -/
-theorem C13_no_panic (psLen : Int) (hps : psLen ≤ 0) (bi : BInfo) (w : String) :
-    metadataComplete psLen bi ≠ .panic w := by
+theorem checks_no_panic (bi : BInfo) (w : String) : checks bi ≠ .panic w := by
   intro h
-  unfold metadataComplete at h
+  unfold checks at h
   split at h
   · simp at h
   · split at h
     · simp at h
-    · rename_i hpl
-      rcases bind_panic h with h | ⟨⟨multi, files, length⟩, hlf, h⟩
+    · rcases bind_panic h with h | ⟨⟨multi, files, length⟩, hlf, h⟩
       · exact lengthAndFiles_no_panic _ _ h
       · obtain ⟨l0, l1, -, -, -, -, -⟩ := lengthAndFiles_ok hlf
         rcases bind_panic h with h | ⟨_, _, h⟩
         · exact pathChecks_no_panic _ _ h
         rcases bind_panic h with h | ⟨chunks, hsz, h⟩
         · exact sizeChecks_no_panic l0 l1 _ h
-        · obtain ⟨hlen, -, -⟩ := sizeChecks_ok l0 l1 hsz
-          rcases bind_panic h with h | ⟨name, hnm, h⟩
+        · rcases bind_panic h with h | ⟨name, hnm, h⟩
           · exact pickName_no_panic _ _ h
-          · rcases bind_panic h with h | ⟨n, hp, h⟩
-            · exact pieces_no_panic hps (by omega) l0 hlen _ h
-            · simp at h
+          · simp at h
+
+/-- MetadataComplete never panics, for EVERY BInfo (on a Pieces that has no metadata yet) -/
+theorem C13_no_panic (psLen : Int) (hps : psLen ≤ 0) (bi : BInfo) (w : String) :
+    metadataComplete psLen bi ≠ .panic w := by
+  intro h
+  unfold metadataComplete at h
+  rcases bind_panic h with h | ⟨c, hc, h⟩
+  · exact checks_no_panic _ _ h
+  · obtain ⟨-, hpl, -, hlf, -, hsz, -⟩ := checks_ok hc
+    obtain ⟨l0, l1, -, -, -, -, -⟩ := lengthAndFiles_ok hlf
+    obtain ⟨hlen, -, -⟩ := sizeChecks_ok l0 l1 hsz
+    rcases bind_panic h with h | ⟨n, hp, h⟩
+    · exact pieces_no_panic hps hpl l0 hlen _ h
+    · simp at h
+
+/-- REJECTION IS ATOMIC.  Torrent.MetadataComplete with its assignments in the order
+    written: whenever it returns an error, not one field of the Torrent or of the piece
+    store has changed (every check precedes every assignment).  A rejected dictionary
+    leaves no trace, so it can be delivered again (and again) with the same outcome. -/
+theorem C13_reject_atomic (st : TState) (bi : BInfo) (e : MErr)
+    (h : (metadataCompleteSt st bi).2 = .err e) : (metadataCompleteSt st bi).1 = st := by
+  unfold metadataCompleteSt at h ⊢
+  split
+  · rfl
+  · rfl
+  · rename_i c hc
+    rw [hc] at h
+    simp only at h
+    split at h
+    · rename_i e' hp
+      -- Pieces.MetadataComplete has no error return
+      unfold piecesMetadataComplete at hp
+      split at hp
+      · simp at hp
+      · split at hp
+        · simp at hp
+        · simp only at hp
+          split at hp <;> simp at hp
+    · simp at h
+    · simp at h
+
+/-- the stateful function computes what the pure one does, and on success the state is the
+    accepted geometry -/
+theorem C13_stateful_agrees (st : TState) (bi : BInfo) :
+    (match metadataComplete st.psLen bi with
+     | .ok g => (metadataCompleteSt st bi).2 = .ok () ∧
+         (metadataCompleteSt st bi).1.complete = true ∧
+         (metadataCompleteSt st bi).1.name = g.name ∧
+         (metadataCompleteSt st bi).1.inFlight = some g.nInFlight ∧
+         (metadataCompleteSt st bi).1.nHashes = some g.nHashes ∧
+         (metadataCompleteSt st bi).1.nPieces = g.nPieces ∧
+         (metadataCompleteSt st bi).1.pieceSize = g.pieceLength ∧
+         (metadataCompleteSt st bi).1.psLen = g.length
+     | .err e => (metadataCompleteSt st bi).2 = .err e
+     | .panic w => (metadataCompleteSt st bi).2 = .panic w) := by
+  unfold metadataComplete metadataCompleteSt
+  cases hc : checks bi with
+  | err e => simp [Res.bind]
+  | panic w => simp [Res.bind]
+  | ok c =>
+    simp only [Res.bind]
+    cases hp : piecesMetadataComplete st.psLen bi.pieceLength c.length with
+    | err e => simp
+    | panic w => simp
+    | ok n => simp
+
+/-- after a rejection a second delivery of the same dictionary gives the same error -/
+theorem C13_reject_repeatable (st : TState) (bi : BInfo) (e : MErr)
+    (h : (metadataCompleteSt st bi).2 = .err e) :
+    (metadataCompleteSt (metadataCompleteSt st bi).1 bi).2 = .err e := by
+  rw [C13_reject_atomic st bi e h]; exact h
 
 /-- acceptance implies a self-consistent geometry (`Geom.Valid`) -/
 theorem C13_geometry {psLen : Int} {bi : BInfo} {g : Geom}
@@ -522,6 +599,112 @@ theorem validComponent_spec {c : Bytes} (h : validComponent c = true) :
   unfold validComponent at h
   simp only [Bool.and_eq_true, bne_iff_ne, ne_eq, Bool.not_eq_true'] at h
   exact ⟨h.1.1.1, h.2, h.1.1.2, h.1.2⟩
+
+/-! ### the geometry as seen THROUGH the piece store -/
+
+theorem sum_range_const (f : Nat → Nat) (c : Nat) : ∀ n, (∀ i, i < n → f i = c) →
+    ((List.range n).map f).sum = n * c
+  | 0, _ => by simp
+  | n+1, h => by
+    rw [List.range_succ, List.map_append, List.sum_append,
+        sum_range_const f c n (fun i hi => h i (by omega))]
+    simp only [List.map_cons, List.map_nil, List.sum_cons, List.sum_nil, h n (by omega)]
+    rw [Nat.add_mul]; omega
+
+theorem ceilDiv_split (L P : Nat) (hP : 0 < P) :
+    ceilDiv L P = L / P + (if L % P = 0 then 0 else 1) := by
+  unfold ceilDiv
+  have hdm := Nat.div_add_mod L P
+  have hr := Nat.mod_lt L hP
+  by_cases h0 : L % P = 0
+  · simp only [h0, if_true, Nat.add_zero]
+    have : L + P - 1 = P * (L / P) + (P - 1) := by omega
+    rw [this, Nat.mul_add_div hP, Nat.div_eq_of_lt (show P - 1 < P by omega)]; omega
+  · simp only [h0, if_false]
+    have : L + P - 1 = P * (L / P + 1) + (L % P - 1) := by
+      rw [Nat.mul_add]; omega
+    rw [this, Nat.mul_add_div hP, Nat.div_eq_of_lt (show L % P - 1 < P by omega)]
+
+/-- Pieces.PieceLength / pieceChunks of an accepted torrent: full pieces before the last
+    one, the last piece holds the remainder (a full piece when the length is a multiple),
+    the piece lengths add up to the length and the per-piece block counts to the number of
+    inFlight slots — for EVERY piece length 16384·k (powers of two or not) -/
+theorem C13_piece_store {psLen : Int} {bi : BInfo} {g : Geom}
+    (h : metadataComplete psLen bi = .ok g) :
+    (∀ i, i < g.length.toNat / g.pieceLength → pieceLengthAt g i = g.pieceLength) ∧
+    pieceLengthAt g (g.length.toNat / g.pieceLength) = g.length.toNat % g.pieceLength ∧
+    (∀ i, g.length.toNat / g.pieceLength < i → pieceLengthAt g i = 0) ∧
+    ((List.range g.nPieces).map (pieceLengthAt g)).sum = g.length.toNat ∧
+    ((List.range g.nPieces).map (pieceBlocks g)).sum = g.nInFlight := by
+  have hv := C13_geometry h
+  obtain ⟨multi, files, length, chunks, name, n, -, hpl0, -, hlf, -, hsz, -, -, hg⟩ := mc_ok_inv h
+  obtain ⟨l0, l1, -, -, -, -, -⟩ := lengthAndFiles_ok hlf
+  obtain ⟨hlen, -, -⟩ := sizeChecks_ok l0 l1 hsz
+  have hP : 0 < g.pieceLength := hv.pl_pos
+  have hP16 : 16384 ≤ g.pieceLength := Nat.le_of_dvd hP hv.pl_chunks
+  have hL : g.length = (g.length.toNat : Int) := (Int.toNat_of_nonneg hv.len_nonneg).symm
+  have hglen : g.length = length := by rw [hg]
+  -- `last` and the remainder, on naturals
+  have hq : (Int.tdiv g.length (g.pieceLength : Int)).toNat % 4294967296 =
+      g.length.toNat / g.pieceLength := by
+    have e : g.length / (g.pieceLength : Int) = ((g.length.toNat / g.pieceLength : Nat) : Int) := by
+      rw [Int.natCast_ediv, ← hL]
+    rw [Int.tdiv_eq_ediv_of_nonneg hv.len_nonneg, e, Int.toNat_natCast]
+    have hd1 : g.length.toNat / g.pieceLength ≤ g.length.toNat / 16384 :=
+      Nat.div_le_div_left hP16 (by omega)
+    have hd2 : g.length.toNat ≤ 4294967295 * 16384 := by omega
+    generalize g.length.toNat / g.pieceLength = q at hd1 ⊢
+    omega
+  have hr : (Int.tmod g.length (g.pieceLength : Int)).toNat % 4294967296 =
+      g.length.toNat % g.pieceLength := by
+    have e : g.length % (g.pieceLength : Int) = ((g.length.toNat % g.pieceLength : Nat) : Int) := by
+      rw [Int.natCast_emod, ← hL]
+    rw [Int.tmod_eq_emod_of_nonneg hv.len_nonneg, e, Int.toNat_natCast]
+    have := Nat.mod_lt g.length.toNat hP
+    have := UInt32.toNat_lt bi.pieceLength
+    have : g.pieceLength = bi.pieceLength.toNat := by rw [hg]
+    omega
+  have ha : ∀ i, i < g.length.toNat / g.pieceLength → pieceLengthAt g i = g.pieceLength := by
+    intro i hi; unfold pieceLengthAt; simp only [hq, hi, if_true]
+  have hb : pieceLengthAt g (g.length.toNat / g.pieceLength) = g.length.toNat % g.pieceLength := by
+    unfold pieceLengthAt; simp only [hq, hr, Nat.lt_irrefl, if_false, if_true]
+  have hc : ∀ i, g.length.toNat / g.pieceLength < i → pieceLengthAt g i = 0 := by
+    intro i hi; unfold pieceLengthAt
+    have h1 : ¬ i < g.length.toNat / g.pieceLength := by omega
+    have h2 : ¬ i = g.length.toNat / g.pieceLength := by omega
+    simp only [hq, h1, h2, if_false]
+  have hnp : g.nPieces = g.length.toNat / g.pieceLength +
+      (if g.length.toNat % g.pieceLength = 0 then 0 else 1) := by
+    rw [hv.pieces]; exact ceilDiv_split _ _ hP
+  have hdm := Nat.div_add_mod g.length.toNat g.pieceLength
+  obtain ⟨m, hm⟩ := hv.pl_chunks
+  have hblk : ∀ i, i < g.length.toNat / g.pieceLength → pieceBlocks g i = m := by
+    intro i hi; unfold pieceBlocks; rw [ha i hi, hm]; omega
+  have hqm : g.pieceLength * (g.length.toNat / g.pieceLength) =
+      16384 * (m * (g.length.toNat / g.pieceLength)) := by rw [hm, Nat.mul_assoc]
+  refine ⟨ha, hb, hc, ?_, ?_⟩
+  · by_cases h0 : g.length.toNat % g.pieceLength = 0
+    · simp only [h0, if_true, Nat.add_zero] at hnp
+      rw [hnp, sum_range_const _ g.pieceLength _ ha, Nat.mul_comm]; omega
+    · simp only [h0, if_false] at hnp
+      rw [hnp, List.range_succ, List.map_append, List.sum_append,
+          sum_range_const _ g.pieceLength _ ha]
+      simp only [List.map_cons, List.map_nil, List.sum_cons, List.sum_nil, hb]
+      rw [Nat.mul_comm]; omega
+  · rw [hv.inflight]
+    unfold ceilDiv
+    by_cases h0 : g.length.toNat % g.pieceLength = 0
+    · simp only [h0, if_true, Nat.add_zero] at hnp
+      rw [hnp, sum_range_const _ m _ hblk, Nat.mul_comm]
+      generalize m * (g.length.toNat / g.pieceLength) = qm at hqm ⊢
+      omega
+    · simp only [h0, if_false] at hnp
+      rw [hnp, List.range_succ, List.map_append, List.sum_append, sum_range_const _ m _ hblk]
+      simp only [List.map_cons, List.map_nil, List.sum_cons, List.sum_nil]
+      unfold pieceBlocks
+      rw [hb, Nat.mul_comm]
+      generalize m * (g.length.toNat / g.pieceLength) = qm at hqm ⊢
+      omega
 
 /-- error or valid, nothing in between -/
 theorem C13_reject_or_valid (psLen : Int) (hps : psLen ≤ 0) (bi : BInfo) :
